@@ -68,11 +68,13 @@ mod cpu {
         };
     }
 
-    pub const MASKS: [(u32, &str); 4] = [
+    pub const MASKS: [(u32, &str); 5] = [
         (0, "none"),
         (verif::CPU_SSE2, "sse2"),
         (verif::CPU_SSE2 | verif::CPU_SSSE3 | verif::CPU_SSE4_1, "sse4.1+ssse3"),
         (verif::CPU_ALL, "avx2"),
+        // a generation between the tiers: the aggregation takes its SSSE3 kernel, the distance falls back to SSE2
+        (verif::CPU_SSE2 | verif::CPU_SSSE3, "ssse3-without-sse4.1"),
     ];
 
     pub fn run(h: &Hist, st: &mut Stats, fnv: &mut Fnv, states: &mut Vec<u64>) -> Option<Violation> {
@@ -83,6 +85,7 @@ mod cpu {
             std::arch::is_x86_feature_detected!("sse2"),
             std::arch::is_x86_feature_detected!("sse4.1") && std::arch::is_x86_feature_detected!("ssse3"),
             std::arch::is_x86_feature_detected!("avx2"),
+            std::arch::is_x86_feature_detected!("ssse3"),
         ];
         let mut reference: Option<Vec<String>> = None;
         let mut result = None;
@@ -98,7 +101,8 @@ mod cpu {
                 0 => "fault.reboot_on_cpu_without_simd",
                 1 => "fault.reboot_on_cpu_sse2_only",
                 2 => "fault.reboot_on_cpu_sse4.1_ssse3_no_avx2",
-                _ => "fault.reboot_on_cpu_avx2",
+                3 => "fault.reboot_on_cpu_avx2",
+                _ => "fault.reboot_on_cpu_ssse3_without_sse4.1",
             });
             let before = INITS.load(Ordering::Relaxed);
             let mut tr = Vec::with_capacity(h.ops.len());
@@ -114,7 +118,8 @@ mod cpu {
                     0 => "probe.dispatch_inits.cpu_none",
                     1 => "probe.dispatch_inits.cpu_sse2",
                     2 => "probe.dispatch_inits.cpu_sse4.1+ssse3",
-                    _ => "probe.dispatch_inits.cpu_avx2",
+                    3 => "probe.dispatch_inits.cpu_avx2",
+                    _ => "probe.dispatch_inits.cpu_ssse3_only",
                 },
                 inits,
             );
